@@ -47,6 +47,8 @@ type famEnv struct {
 	rhsFirst     bool
 	sawCall      bool
 	pendingCalls []string
+	resolved     map[string]*resolved // places whose address was already resolved (statement schemas)
+	specFrame    *smt.Term            // up(env, upn) as first computed by the specification (generic depth)
 }
 
 // VerifyFamily checks the function's own contract and every closure it creates.
@@ -94,6 +96,12 @@ func (x *Exec) VerifyFamily(fn *ssa.Function) (rep *FuncReport) {
 		}
 		sort.Strings(rep.Notes)
 	}()
+	partial := false
+	for _, c := range sp.Of("closure") {
+		if strings.HasPrefix(strings.TrimSpace(c.Text), "partial") {
+			partial = true
+		}
+	}
 	seen := map[string]int{}
 	for _, s := range sites {
 		sig := x.pathSignature(s)
@@ -101,7 +109,39 @@ func (x *Exec) VerifyFamily(fn *ssa.Function) (rep *FuncReport) {
 		if seen[sig] > 1 {
 			sig = fmt.Sprintf("%s;#%d", sig, seen[sig])
 		}
-		x.checkClosure(sp, s, sig)
+		func() {
+			// a closure the generator cannot process is one undischarged obligation, not the end of
+			// the whole family
+			defer func() {
+				if r := recover(); r != nil {
+					var msg string
+					switch e := r.(type) {
+					case Unsupported:
+						msg = e.Error()
+					case SpecError:
+						msg = e.Error()
+					default:
+						panic(r)
+					}
+					if os.Getenv("GOWP_DEBUG") != "" {
+						msg += "\n" + string(debug.Stack())
+					}
+					if partial && (strings.Contains(msg, "of kind ") || strings.Contains(msg, "kind of") && strings.Contains(msg, "not determined")) {
+						// the contract says it covers the 17 basic kinds only: closures for other
+						// kinds are not under contract (counted and reported, never claimed)
+						rep.Uncovered = append(rep.Uncovered, sig+": "+msg)
+						x.NoObl = 0
+						return
+					}
+					x.prefix = QualName(fn)
+					x.sig = sig
+					x.NoObl = 0
+					st := x.newState()
+					x.oblige("closure-not-analysable", msg, x.where(s.clo.Fn), st, x.B.False())
+				}
+			}()
+			x.checkClosure(sp, s, sig)
+		}()
 	}
 	// every FuncLit of the function must have been reached (no closure silently unmatched)
 	nlit := len(fn.AnonFuncs)
@@ -312,7 +352,12 @@ func (x *Exec) checkClosure(sp *spec.FuncSpec, s *closureSite, sig string) {
 		}
 	}
 	x.fam = fe
-	defer func() { x.fam = nil }()
+	// facts assumed while checking this closure (instances of up(), cell kinds, ...) are local to it
+	nAssume := len(x.assumes)
+	defer func() {
+		x.fam = nil
+		x.assumes = x.assumes[:nAssume]
+	}()
 	// closure-level loop invariants: "loop N invariant e" inside closure clauses
 	for _, c := range invs {
 		w := strings.Fields(c.Text)
@@ -345,6 +390,13 @@ func (x *Exec) checkClosure(sp *spec.FuncSpec, s *closureSite, sig string) {
 			specErr("%v", err)
 		}
 		run.PC = B.And(run.PC, nf.evalBool(e, run, s.st))
+	}
+	if len(reqs) > 0 {
+		// the assumptions may pin further values (e.g. the kind of a variable)
+		fe.facts, fe.pins = propagate(run.PC)
+		if fe.facts[-1] {
+			return
+		}
 	}
 	// 1. the specification, executed on a copy of the initial state
 	specSt := run.clone()
@@ -391,6 +443,19 @@ func (x *Exec) checkClosure(sp *spec.FuncSpec, s *closureSite, sig string) {
 		clauseText = stmtC.Text
 	}
 	where := x.where(fn)
+	// Frame lemma: a closure that walks the frame chain in a loop ends with a fresh variable o about
+	// which the invariant says o == up(env, i). Proving o == up(env, upn) separately and substituting
+	// it keeps the main obligation free of the loop variable (the terms of both sides then coincide).
+	var loopFrames []*smt.Term
+	if fe.specFrame != nil {
+		for _, li := range nf.loops {
+			for _, phi := range li.phis {
+				if t, ok := nf.regs[phi].(*smt.Term); ok && t.S == RefS && t.Op == "var" {
+					loopFrames = append(loopFrames, t)
+				}
+			}
+		}
+	}
 	for i, r := range res.Rets {
 		if r.st.PC.IsFalse() {
 			continue
@@ -398,14 +463,42 @@ func (x *Exec) checkClosure(sp *spec.FuncSpec, s *closureSite, sig string) {
 		if len(res.Rets) > 1 {
 			x.sig = fmt.Sprintf("%s;ret%d", sig, i+1)
 		}
+		var frameSub map[*smt.Term]*smt.Term
+		if len(loopFrames) > 0 {
+			sub := map[*smt.Term]*smt.Term{}
+			frameSub = sub
+			for _, o := range loopFrames {
+				x.oblige("closure-frame", "the frame reached by the loop is up(env, upn)", where, r.st, B.Eq(o, fe.specFrame))
+				sub[o] = fe.specFrame
+			}
+			for k, v := range r.st.heap {
+				r.st.heap[k] = B.Subst(v, sub)
+			}
+			for k, v := range r.results {
+				if t, ok := v.(*smt.Term); ok {
+					r.results[k] = B.Subst(t, sub)
+				}
+			}
+		}
 		var goal *smt.Term
-		if alt != nil && alt.second != nil {
-			goal = B.Or(x.sameOutcome(r, alt.results, alt.first), x.sameOutcome(r, alt.results2, alt.second))
+		if alt != nil {
+			var gs []*smt.Term
+			for k := range alt.states {
+				gs = append(gs, x.sameOutcome(r, alt.res[k], alt.states[k]))
+			}
+			goal = B.Or(gs...)
 		} else {
 			goal = x.sameOutcome(r, specRes, specSt)
 		}
 		goal = x.simplifyUnder(r.st.PC, goal)
-		x.oblige("closure", clauseText, where, r.st, goal)
+		ob := x.oblige("closure", clauseText, where, r.st, goal)
+		if ob != nil && len(frameSub) > 0 {
+			// the frame lemma (proved above) justifies the same substitution in the hypotheses
+			for hi, h := range ob.Hyps {
+				ob.Hyps[hi] = B.Subst(h, frameSub)
+			}
+			ob.PC = B.Subst(ob.PC, frameSub)
+		}
 	}
 	x.sig = sig
 	// panics of the closure must be panics of the specification: the spec evaluation has no panic
@@ -450,13 +543,37 @@ func (x *Exec) sameOutcome(r exitRec, specRes []Value, specSt *State) *smt.Term 
 		}
 		a := x.heapGet(r.st, k, keys[k])
 		b := x.heapGet(specSt, k, keys[k])
-		cs = append(cs, B.Eq(a, b))
+		cs = append(cs, x.eqStores(a, b))
 	}
 	// same sequence of operand calls
 	if !sameLazyShape(r.st.lazy, specSt.lazy) {
 		cs = append(cs, x.lazyEq(r.st.lazy, specSt.lazy))
 	}
 	return B.And(cs...)
+}
+
+// eqStores: equality of two array terms that are store-chains of the same shape over the same base
+// is decomposed into equality of the indices and of the stored values (a sufficient condition that
+// keeps array extensionality and the floating-point theory out of the query); other shapes are
+// compared as arrays.
+func (x *Exec) eqStores(a, b *smt.Term) *smt.Term {
+	B := x.B
+	if a == b {
+		return B.True()
+	}
+	if a.Op == "store" && b.Op == "store" && a.S == b.S {
+		base := x.eqStores(a.Args[0], b.Args[0])
+		if !base.IsFalse() {
+			var val *smt.Term
+			if a.Args[2].S.K == smt.KArray {
+				val = x.eqStores(a.Args[2], b.Args[2])
+			} else {
+				val = B.Eq(a.Args[2], b.Args[2])
+			}
+			return B.And(base, B.Eq(a.Args[1], b.Args[1]), val)
+		}
+	}
+	return B.Eq(a, b)
 }
 
 func sameLazyShape(a, b *lazyHeap) bool { return sameLazy(a, b) }
@@ -479,10 +596,9 @@ func (x *Exec) eqLoose(a, b Value) *smt.Term {
 }
 
 type specAlt struct {
-	results  []Value
-	first    *State
-	results2 []Value
-	second   *State
+	results []Value
+	states  []*State
+	res     [][]Value
 }
 
 // evalStmtSpec interprets a statement schema:
@@ -506,31 +622,53 @@ func (x *Exec) evalStmtSpec(f *Frame, fe *famEnv, c *spec.Clause, st, create *St
 	if err != nil {
 		specErr("%v", err)
 	}
-	run := func(s *State, rhsFirst bool) []Value {
-		fe.rhsFirst = rhsFirst
+	// Go orders the calls of a statement but not the resolution of the place's address or the load
+	// of its old value relative to them; the three possible orders are all accepted:
+	//   0: address, load, calls     1: address, calls, load     2: calls, address, load
+	lhsKey := lhsE.String()
+	run := func(s *State, order int) []Value {
 		fe.memo = map[string]TV{}
-		if rhsFirst {
-			// evaluate the calls of the right-hand side first, then the whole expression (the calls
-			// are memoised so that they are not repeated)
+		fe.resolved = map[string]*resolved{}
+		pl := x.evalPlace(f, fe, lhsE, s, create)
+		collect := func() {
+			// perform the calls of the right-hand side now (memoised, so that they are not repeated)
 			fe.collect = true
 			f.eval(rhsE, s, create)
 			fe.collect = false
 		}
-		loc := x.evalPlace(f, fe, lhsE, s, create)
+		var rs *resolved
+		switch order {
+		case 0:
+			rs = pl.resolve(s)
+			fe.resolved[lhsKey] = rs
+		case 1:
+			rs = pl.resolve(s)
+			fe.resolved[lhsKey] = rs
+			collect()
+		case 2:
+			collect()
+			rs = pl.resolve(s)
+			fe.resolved[lhsKey] = rs
+		}
 		v := f.eval(rhsE, s, create)
 		fe.memo = map[string]TV{}
-		v = f.coerce(v, loc.typ)
-		loc.write(s, v.V)
+		fe.resolved = map[string]*resolved{}
+		v = f.coerce(v, pl.typ)
+		rs.write(s, v.V)
 		return x.trampoline(f, fe, s)
 	}
 	a := &specAlt{}
-	a.first = st
-	a.results = run(st, false)
+	s0 := st
+	a.states = append(a.states, s0)
+	a.res = append(a.res, run(s0, 0))
 	if fe.sawCall {
-		s2 := f.entry.clone()
-		a.second = s2
-		a.results2 = run(s2, true)
+		for order := 1; order <= 2; order++ {
+			s := f.entry.clone()
+			a.states = append(a.states, s)
+			a.res = append(a.res, run(s, order))
+		}
 	}
+	a.results = a.res[0]
 	return a
 }
 
@@ -577,7 +715,12 @@ func (x *Exec) trampoline(f *Frame, fe *famEnv, s *State) []Value {
 
 // place is an assignable location of the contract language.
 type place struct {
-	typ   types.Type
+	typ     types.Type
+	resolve func(s *State) *resolved // address resolution (frame walk, slice header / boxed handle) in state s
+}
+
+// resolved is a place whose address has been computed; reads and writes may happen in later states.
+type resolved struct {
 	read  func(s *State) Value
 	write func(s *State, v Value)
 }
@@ -636,7 +779,11 @@ func (x *Exec) frameOf(fe *famEnv, st *State, upn, depthT *smt.Term) *smt.Term {
 			return outer(fileEnv())
 		}
 	}
-	return x.upTerm(st, fe.env, upn, envT)
+	fr := x.upTerm(st, fe.env, upn, envT)
+	if fe.specFrame == nil {
+		fe.specFrame = fr
+	}
+	return fr
 }
 
 func (fe *famEnv) envType() types.Type {
@@ -713,7 +860,6 @@ func (x *Exec) variablePlace(f *Frame, fe *famEnv, args []spec.Expr, st, create 
 		k = kc.Val
 		gt = KindType(k)
 	}
-	frame := x.frameOf(fe, st, upn, depthT)
 	envT := fe.envType()
 	// storage class
 	var intBind bool
@@ -725,60 +871,67 @@ func (x *Exec) variablePlace(f *Frame, fe *famEnv, args []spec.Expr, st, create 
 	default:
 		var okc bool
 		intBind, okc = x.classIsInt(par, fe, class)
-		if !okc {
+		if !okc && kindKnown && k == kString {
+			// strings are never stored unboxed
+			x.note("variables of non-basic kinds are never stored unboxed (assumed: Comp.NewBind gives IntBind only to the 16 numeric/bool kinds)")
+			okc, intBind = true, false
+		}
+		if !okc && gt != nil {
 			specErr("the storage class of %s is not determined on this path", args[0])
 		}
 	}
 	if gt == nil {
-		// a kind outside the 17 optimised ones (or not selected on this path): the variable is the
-		// reflect.Value itself
-		if intBind {
+		// a kind outside the 17 optimised ones (or not selected on this path): such variables are
+		// always boxed and the variable is the reflect.Value itself
+		if intBind && force == "unboxed" {
 			specErr("unboxed variable %s of a non-basic kind", args[0])
 		}
-		fp, sliceT := x.fieldByName(frame, envT, "Vals")
+		if intBind {
+			x.note("variables of non-basic kinds are never stored unboxed (assumed: Comp.NewBind gives IntBind only to the 16 numeric/bool kinds)")
+		}
+		_, sliceT := x.fieldByName(fe.env, envT, "Vals")
 		elemT := sliceT.Underlying().(*types.Slice).Elem()
-		loc := func(s *State) *Ptr {
+		return &place{typ: elemT, resolve: func(s *State) *resolved {
+			frame := x.frameOf(fe, s, upn, depthT)
+			fp, _ := x.fieldByName(frame, envT, "Vals")
 			sl := x.load(s, fp, sliceT)
 			arr, off, _, _ := sliceParts(sl)
-			return &Ptr{Arr: arr, Idx: B.IndexAdd(off, index), Off: off, Rel: index, Key: "[]" + typeKey(elemT), Type: elemT}
-		}
-		return &place{typ: elemT,
-			read:  func(s *State) Value { return x.load(s, loc(s), elemT) },
-			write: func(s *State, v Value) { x.store(s, loc(s), elemT, v) }}
+			p := &Ptr{Arr: arr, Idx: B.IndexAdd(off, index), Off: off, Rel: index, Key: "[]" + typeKey(elemT), Type: elemT}
+			return &resolved{
+				read:  func(s2 *State) Value { return x.load(s2, p, elemT) },
+				write: func(s2 *State, v Value) { x.store(s2, p, elemT, v) }}
+		}}
 	}
 	if intBind {
-		fp, sliceT := x.fieldByName(frame, envT, "Ints")
+		_, sliceT := x.fieldByName(fe.env, envT, "Ints")
 		elemT := sliceT.Underlying().(*types.Slice).Elem()
-		loc := func(s *State) *Ptr {
+		return &place{typ: gt, resolve: func(s *State) *resolved {
+			frame := x.frameOf(fe, s, upn, depthT)
+			fp, _ := x.fieldByName(frame, envT, "Ints")
 			sl := x.load(s, fp, sliceT)
 			arr, off, _, _ := sliceParts(sl)
-			return &Ptr{Arr: arr, Idx: B.IndexAdd(off, index), Off: off, Rel: index, Key: "[]" + typeKey(elemT), Type: elemT, View: gt}
-		}
-		return &place{typ: gt,
-			read:  func(s *State) Value { return x.load(s, loc(s), gt) },
-			write: func(s *State, v Value) { x.store(s, loc(s), gt, v) }}
+			p := &Ptr{Arr: arr, Idx: B.IndexAdd(off, index), Off: off, Rel: index, Key: "[]" + typeKey(elemT), Type: elemT, View: gt}
+			return &resolved{
+				read:  func(s2 *State) Value { return x.load(s2, p, gt) },
+				write: func(s2 *State, v Value) { x.store(s2, p, gt, v) }}
+		}}
 	}
 	// boxed: env.Vals[index] is a settable reflect.Value whose cell has the variable's kind
-	fp, sliceT := x.fieldByName(frame, envT, "Vals")
+	_, sliceT := x.fieldByName(fe.env, envT, "Vals")
 	elemT := sliceT.Underlying().(*types.Slice).Elem()
-	rv := func(s *State) *smt.Term {
+	x.note("boxed variables: the reflect.Value stored in env.Vals[i] denotes a cell of the variable's static kind (assumed)")
+	return &place{typ: gt, resolve: func(s *State) *resolved {
+		frame := x.frameOf(fe, s, upn, depthT)
+		fp, _ := x.fieldByName(frame, envT, "Vals")
 		sl := x.load(s, fp, sliceT)
 		arr, off, _, _ := sliceParts(sl)
 		p := &Ptr{Arr: arr, Idx: B.IndexAdd(off, index), Off: off, Rel: index, Key: "[]" + typeKey(elemT), Type: elemT}
-		return rvOf(x.load(s, p, elemT))
-	}
-	x.note("boxed variables: the reflect.Value stored in env.Vals[i] denotes a cell of the variable's static kind (assumed)")
-	return &place{typ: gt,
-		read: func(s *State) Value {
-			r := rv(s)
-			x.assumeGlobal(B.Eq(x.rkind(r), B.BVC(k, 64)))
-			return x.cellRead(s, r, k)
-		},
-		write: func(s *State, v Value) {
-			r := rv(s)
-			x.assumeGlobal(B.Eq(x.rkind(r), B.BVC(k, 64)))
-			x.cellWrite(s, r, k, v)
-		}}
+		r := rvOf(x.load(s, p, elemT))
+		x.assumeGlobal(B.Eq(x.rkind(r), B.BVC(k, 64)))
+		return &resolved{
+			read:  func(s2 *State) Value { return x.cellRead(s2, r, k) },
+			write: func(s2 *State, v Value) { x.cellWrite(s2, r, k, v) }}
+	}}
 }
 
 // cellRead / cellWrite: the K-typed view of a boxed cell.
@@ -789,17 +942,32 @@ func (x *Exec) cellRead(s *State, r *smt.Term, k uint64) Value {
 	case "bool":
 		return B.Select(x.rcell(s, "bool", smt.Bool), r)
 	case "int":
-		return B.Extract(basicSort(t).W-1, 0, B.Select(x.rcell(s, "int", I64), r))
+		c := B.Select(x.rcell(s, "int", I64), r)
+		w := basicSort(t).W
+		// a cell of a narrow integer kind holds a value of that kind (reflect's accessor extends it)
+		x.assumeGlobal(B.Eq(c, B.SignExt(64-w, B.Extract(w-1, 0, c))))
+		return B.Extract(w-1, 0, c)
 	case "uint":
-		return B.Extract(basicSort(t).W-1, 0, B.Select(x.rcell(s, "uint", I64), r))
+		c := B.Select(x.rcell(s, "uint", I64), r)
+		w := basicSort(t).W
+		x.assumeGlobal(B.Eq(c, B.ZeroExt(64-w, B.Extract(w-1, 0, c))))
+		return B.Extract(w-1, 0, c)
 	case "float":
-		return B.FPConv(B.Select(x.rcell(s, "float", smt.FP64), r), basicSort(t))
+		c := B.Select(x.rcell(s, "float", smt.FP64), r)
+		if k == kFloat32 {
+			// a float32 cell holds a binary32 value (reflect's accessor widens it exactly)
+			x.assumeGlobal(B.Eq(c, B.FPConv(B.FPConv(c, smt.FP32), smt.FP64)))
+		}
+		return B.FPConv(c, basicSort(t))
 	case "complex":
 		fs := smt.FP64
+		re, im := B.Select(x.rcell(s, "cre", smt.FP64), r), B.Select(x.rcell(s, "cim", smt.FP64), r)
 		if k == kComplex64 {
 			fs = smt.FP32
+			x.assumeGlobal(B.Eq(re, B.FPConv(B.FPConv(re, smt.FP32), smt.FP64)))
+			x.assumeGlobal(B.Eq(im, B.FPConv(B.FPConv(im, smt.FP32), smt.FP64)))
 		}
-		return &Struct{[]Value{B.FPConv(B.Select(x.rcell(s, "cre", smt.FP64), r), fs), B.FPConv(B.Select(x.rcell(s, "cim", smt.FP64), r), fs)}}
+		return &Struct{[]Value{B.FPConv(re, fs), B.FPConv(im, fs)}}
 	case "str":
 		return B.Select(x.rcell(s, "str", StrS), r)
 	}
